@@ -162,6 +162,10 @@ class PathCtx:
         if not b:
             raise PathInfeasible()
 
+    def proves(self, t) -> bool:
+        """True iff the path condition implies t (unknown counts as no)."""
+        return self._check(z3.Not(t)) == z3.unsat
+
     def require(self, t, what):
         """Side condition of an encoding: must follow from the path condition."""
         r = self._check(z3.Not(t))
